@@ -56,7 +56,7 @@ TInit ==
   /\ acc = EmptyFn /\ requeue = EmptyFn /\ route = EmptyFn /\ lrnOf = EmptyFn /\ sels = EmptyFn
   /\ lrns = EmptyFn /\ nsel = 0 /\ selOf = EmptyFn /\ bgprio = 0 /\ gone = {} /\ nonconf = 0 /\ clock = 0
   /\ stats = [sections |-> 0, picks |-> 0, handoffs |-> 0, merged |-> 0, requeued |-> 0, background |-> 0,
-              completed_by_worker |-> 0, completed_by_scheduler |-> 0, cleanups |-> 0, quiescent |-> 0, finals |-> 0, listings |-> 0]
+              completed_by_worker |-> 0, completed_by_scheduler |-> 0, cleanups |-> 0, quiescent |-> 0, finals |-> 0, listings |-> 0, design_steps |-> 0]
 
 Keep(vs) == UNCHANGED vs
 
@@ -788,6 +788,20 @@ TListing ==
   /\ stats' = [stats EXCEPT !.listings = @ + 1]
   /\ UNCHANGED <<S, cfg, calls, stm, acc, requeue, route, lrnOf, sels, lrns, nsel, selOf, bgprio, gone, clock>>
 
+\* Spec -> code replay: the abstract state the design model expects after an
+\* action, compared with the real snapshot. The design leaves the choice
+\* among queued tasks open, so a difference is a non-conformance of the
+\* replay (counted), never a verdict.
+TDesign ==
+  /\ IsEvent("design")
+  /\ verdict' = "ok"
+  /\ LET agree == \A t \in Tasks(S) :
+                    t.id \in DOMAIN Line.stages =>
+                      (Line.stages[t.id] = t.stage /\ Line.workers[t.id] = t.worker)
+     IN nonconf' = IF Line.done /\ agree THEN nonconf ELSE nonconf + 1
+  /\ stats' = [stats EXCEPT !.design_steps = @ + 1]
+  /\ UNCHANGED <<S, cfg, calls, stm, acc, requeue, route, lrnOf, sels, lrns, nsel, selOf, bgprio, gone, clock>>
+
 \* The real code panicked, or stopped making progress in the middle of a
 \* step (for instance a loop that never ends inside a critical section).
 TPanic ==
@@ -795,7 +809,7 @@ TPanic ==
   /\ verdict' = IF Line.ev = "panic" THEN "PANIC:scheduler-panicked" ELSE "PANIC:scheduler-stopped-making-progress"
   /\ UNCHANGED <<S, cfg, calls, stm, acc, requeue, route, lrnOf, sels, lrns, nsel, selOf, bgprio, gone, nonconf, stats, clock>>
 
-TNext == TListing \/ TPanic \/ TReset \/ TConfig \/ TPredeclare \/ TNoop \/ TAdvance \/ TCancel \/ TCall \/ TSend \/ TRet \/ TSec \/ TQuiescent \/ TFinal
+TNext == TDesign \/ TListing \/ TPanic \/ TReset \/ TConfig \/ TPredeclare \/ TNoop \/ TAdvance \/ TCancel \/ TCall \/ TSend \/ TRet \/ TSec \/ TQuiescent \/ TFinal
 
 TraceSpec == TInit /\ [][TNext]_tvars
 
